@@ -79,14 +79,6 @@ theorem idAlg_measure_ok {topo : MG Name → Except Err (List Name)} (ht : TopoG
     idAlg topo I ≠ .error (.internal "measure") := by
   rcases idAlg_total ht I hv with ⟨e, he⟩ | he <;> rw [he] <;> simp
 
-/-- a valid query of the property: well-formed acyclic graph, `Y` non-empty inside the graph, `X ∩ Y = ∅` -/
-structure ValidQuery (G : MG Name) (X Y : List Name) : Prop where
-  wf : G.WF
-  ranked : G.Ranked
-  ysub : ∀ y ∈ Y, y ∈ G.nodes
-  yne : Y ≠ []
-  disj : ∀ y ∈ Y, y ∉ X
-
 /-- **C02, totality.** For every valid query ID terminates with exactly one of two outcomes: an estimand or the
 `unidentifiable` refusal. -/
 theorem id_total {topo : MG Name → Except Err (List Name)} (ht : TopoGood topo) (G : MG Name) (X Y : List Name)
